@@ -56,6 +56,8 @@ def seeds(quick):
     for f in ("tiny-macho", "bad_dotnet_pe", "mtxex.dll", "weird_rich", "0ca09bde7602769120fadc4f7a4147347a7a97271370583586c9e587fd396171", "6c2abf4b80a87e63eee2996e5cea8f004d49ec0c1806080fa72e960529cba14c",
               "e3d45a2865818756068757d7e319258fef40dad54532ee4355b86bc129f27345", "c6f9709feccf42f2d9e22057182fe185f177fb9daaa2649b4669a24f2ee7e3ba_0h_410h"):
         S.append((f, open(os.path.join(R, "tests/data", f), "rb").read()))
+    import dotnetgen
+    S.append(("synthetic-dotnet", dotnetgen.build()))      # TypeSpec chains, generics, nested classes, signatures: one edit away from reference cycles (lib/dotnetgen.py)
     S += [("empty", b""), ("one-byte", b"M"), ("MZ", b"MZ"), ("zeros", b"\0" * 4096), ("ff", b"\xff" * 512), ("elf-magic", b"\x7fELF" + b"\x01" * 60)]
     if not quick:
         for f in ("tiny", "tiny-idata-51ff", "tiny-overlay", "tiny-universal", "elf_with_imports", "mtxex_modified_rsrc_rva.dll", "tiny_empty_import_name", "ChipTune.efi", "pe_imports", "079a472d22290a94ebb212aa8015cdc8dd28a968c6b4d3b88acdd58ce2d3b885.upx"):
@@ -249,7 +251,7 @@ def main():
     ck.cov["rules"] = nrules
     ck.sample(dict(seed=cover[0]["seed"], case="set=60:ff (one byte of the seed replaced), scanned with %d rules calling every module function" % nrules))
     ck.cov["rule"] = ("a case = one seed with one deviation (truncation length / byte value at a live position / 16- or 32-bit field value near a live position; thorough: pairs); "
-                      "seeds = in-tree executables of every module's format + degenerate inputs; live = byte positions whose flip changes a module's object dump or a verdict "
+                      "seeds = in-tree executables of every module's format + a synthetic .NET image with recursive metadata (lib/dotnetgen.py) + degenerate inputs; live = byte positions whose flip changes a module's object dump or a verdict "
                       "(measured); non-trivial = cases at live positions; nothing is claimed beyond this neighbourhood")
     ck.assumptions += ["exhaustive for 1 deviation over the boundary alphabet (and the defined 2-closure in the thorough tier) - inputs needing three coordinated edits are outside",
                        "UBSan groups alignment, signed-integer-overflow, shift-base, function, nonnull-attribute, pointer-overflow are disabled (DESIGN 5)"]
